@@ -265,6 +265,10 @@ def extract(src=SRC, verbose=False):
             "units": [(j["dir"], j["rel"]) for j in jobs],
             "units_extracted": len(todo),
             "grammar": _read(os.path.join(src, "cppparser", "cppBison.yxx")).decode(errors="replace"),
+            # bison's own numbering of the actions: `case N: /* lhs: rhs  */` in the generated parser
+            "bison_cases": {int(m.group(1)): (m.group(2), m.group(3).strip()) for m in re.finditer(
+                r"^\s*case (\d+): /\* ([A-Za-z_0-9$@]+): (.*?)\*/\s*$",
+                _read(os.path.join(scratch, "cppBison.cxx")).decode(errors="replace"), flags=re.M)},
             "extract_wall_s": round(time.time() - t0, 2),
             "src": src,
         }
